@@ -36,7 +36,7 @@ Definition write_byte := pack_u 1.      (* uint8_pack  *)
 Definition write_short := pack_u 2.     (* uint16_pack *)
 Definition write_int := pack_s 4.       (* int32_pack  *)
 Definition write_uint := pack_u 4.      (* uint32_pack *)
-Definition write_long := pack_u 8.      (* uint64_pack *)
+Definition write_long := pack_s 8.      (* int64_pack *)
 Definition write_consistency_level := write_short.
 
 (* strings arrive here already UTF-8 encoded (s.encode('utf8') is Python's, trusted) *)
